@@ -110,7 +110,8 @@ def resample_configs(rng, shape, interpolation=0):
 
 
 def run(specs, shape, rng_seed, boxes=None, kps=None, channels=None, extra_targets=False,
-        bbox_format='pascal_voc_3d', kp_format='xyzas', kp_kw=None, bbox_kw=None, dtype='int32', via_replay=False):
+        bbox_format='pascal_voc_3d', kp_format='xyzas', kp_kw=None, bbox_kw=None, dtype='int32', via_replay=False,
+        more_boxes=False):
     """runs Compose(specs) under random.seed(rng_seed) on a labelled volume; returns the result dict"""
     img = R.labelled(shape, dtype)
     mask = R.labelled(shape, dtype)
@@ -120,6 +121,9 @@ def run(specs, shape, rng_seed, boxes=None, kps=None, channels=None, extra_targe
     ckw = {}
     if extra_targets:
         ckw['additional_targets'] = {'image2': 'image', 'mask2': 'mask'}
+    if more_boxes and boxes is not None:
+        # the same boxes once more under an additional target name: they must be treated exactly like `bboxes`
+        ckw.setdefault('additional_targets', {})['bboxes2'] = 'bboxes'
     pipe = R.build(specs, bbox_format=bbox_format if boxes is not None else None,
                    kp_format=kp_format if kps is not None else None,
                    kp_kw=kp_kw if kp_kw is not None else {'angle_in_degrees': False},
@@ -130,6 +134,8 @@ def run(specs, shape, rng_seed, boxes=None, kps=None, channels=None, extra_targe
         data['mask2'] = mask.copy()
     if boxes is not None:
         data['bboxes'] = [tuple(b) for b in boxes]
+        if more_boxes:
+            data['bboxes2'] = [tuple(b) for b in boxes]
     if kps is not None:
         data['keypoints'] = [tuple(k) for k in kps]
     R.seed(rng_seed)
